@@ -29,13 +29,24 @@ FAIL_PATTERNS = [
 
 
 def run_unit(unit_name, defines=(), canary=None, seed=0, rlimit=None, tag='main', timeout=900):
+    """runs the unit; if rustc rejects text that WE inserted into a function (a proof hint or invariant naming a local
+    that no longer exists), the hints of that function are dropped (anchors lost) and the unit is run once more"""
+    res = _run_unit(unit_name, defines, canary, seed, rlimit, tag, timeout, ())
+    if res.get('status') == 'undecided' and res.get('hint_errors'):
+        res2 = _run_unit(unit_name, defines, canary, seed, rlimit, tag, timeout, tuple(sorted(res['hint_errors'])))
+        res2['hints_dropped_for'] = sorted(res['hint_errors'])
+        return res2
+    return res
+
+
+def _run_unit(unit_name, defines=(), canary=None, seed=0, rlimit=None, tag='main', timeout=900, drop_hints=()):
     """returns dict(status, failures, verified, errors, time_s, out_path, meta)"""
     upath = os.path.join(VERIF, 'vx', 'units', unit_name + '.vu')
     opath = os.path.join(OUT, 'units', '%s__%s.rs' % (unit_name, tag))
     res = {'unit': unit_name, 'tag': tag, 'defines': list(defines), 'canary': canary, 'out_path': opath}
     t0 = time.time()
     try:
-        meta = extract.build(upath, opath, defines, canary)
+        meta = extract.build(upath, opath, defines, canary, drop_hints)
     except (extract.LostAnchor, extract.rules.Unsupported) as e:
         res.update(status='undecided', reason='lost anchor / unsupported: %s' % e, failures=[], meta=None, time_s=time.time() - t0)
         return res
@@ -91,6 +102,14 @@ def run_unit(unit_name, defines=(), canary=None, seed=0, rlimit=None, tag='main'
             continue
         if kind is None:
             hard.append(msg + ' @ ' + ','.join('%s:%s' % (s['file_name'], s['line_start']) for s in d.get('spans', [])[:2]))
+            # a compile error inside text inserted by us (proof / invariant / contract of fn F)?
+            for s in d.get('spans', []):
+                if s.get('is_primary'):
+                    lm = lines.get(str(s['line_start'])) or {}
+                    if lm.get('fn') and lm.get('section') in ('proof', 'invariant', 'decreases') and 'src' not in lm:
+                        res.setdefault('hint_errors', set()).add(lm['fn'])
+                    else:
+                        res['non_hint_error'] = True
             continue
         prim = [s for s in d.get('spans', []) if s.get('is_primary')]
         sec = [s for s in d.get('spans', []) if not s.get('is_primary')]
@@ -127,6 +146,8 @@ def run_unit(unit_name, defines=(), canary=None, seed=0, rlimit=None, tag='main'
                          'out_line': prim[0]['line_start'] if prim else None, 'src': src,
                          'rendered': d.get('rendered', '')})
     res['failures'] = failures
+    if res.get('non_hint_error'):
+        res.pop('hint_errors', None)
     if hard or vr.get('encountered-vir-error') or not vr:
         res['status'] = 'undecided'
         res['reason'] = '; '.join(hard) if hard else ('verus produced no result: ' + p.stderr[-2000:])
